@@ -181,6 +181,32 @@ impl<'a> Ctx<'a> {
             if got["ok"] != true && bytes != before {
                 self.mismatch(path, "C11", "a refused operation changed what the builder serialises".into());
             }
+            // last sentence of C11: what the builder serialises (here through write_into into a buffer that held
+            // something else) is accepted by the parser, exposes the builder's attributes, and its integrity validates
+            {
+                let mut v = vec![0xa5u8; len];
+                let wrote = nb.write_into(&mut v);
+                let verdict: Result<(), String> = match wrote {
+                    Err(e) => Err(format!("write_into(exact) failed: {e:?}")),
+                    Ok(_) => match Message::from_bytes(&v) {
+                        Err(e) => Err(format!("the parser rejects the serialised message: {e:?}")),
+                        Ok(m) => {
+                            let got: Vec<u16> = m.iter_attributes().map(|a| a.get_type().value()).collect();
+                            let want: Vec<u16> = present.iter().map(|t| t.value()).collect();
+                            if got != want {
+                                Err(format!("parsed back attributes {got:?}, builder holds {want:?}"))
+                            } else if (want.contains(&8) || want.contains(&0x1c)) && m.validate_integrity(&self.cred).is_err() {
+                                Err("integrity of the serialised message does not validate".to_string())
+                            } else {
+                                Ok(())
+                            }
+                        }
+                    },
+                };
+                if let Err(w) = verdict {
+                    self.mismatch(path, "C11", w);
+                }
+            }
             // one serialisation per abstract state, whatever the path (typed or raw, owned or not, cloned or not)
             match self.canon.get(&dkey) {
                 None => {
@@ -221,7 +247,7 @@ pub fn main_builder(args: &[String]) {
         typed.insert(k.clone(), a);
     }
     let mut ops: Vec<(String, String)> = vec![];
-    let ord: Vec<&str> = if reduced { vec!["A", "R"] } else { vec!["A", "B", "R", "U"] };
+    let ord: Vec<&str> = if reduced { vec!["A", "R", "Z"] } else { vec!["A", "B", "R", "U", "Z"] };
     for k in &ord {
         ops.push(("add_attribute".into(), k.to_string()));
         ops.push(("add_raw_attribute".into(), k.to_string()));
